@@ -897,6 +897,17 @@ impl RootRef<'_> {
         // XXX: openat2(2) supports doing O_CREAT on trailing symlinks without
         // O_NOFOLLOW. We might want to expose that here, though because it
         // can't be done with the emulated backend that might be a bad idea.
+        // The kernel ignores O_CREAT if O_PATH is set, in which case a "." or ".."
+        // final component would simply be opened -- and ".." of the (in-root)
+        // parent directory can be a directory outside of the root.
+        let name_bytes = name.as_os_str().as_bytes();
+        if name_bytes == b"." || name_bytes == b".." {
+            Err(ErrorImpl::InvalidArgument {
+                name: "path".into(),
+                description: "file creation path cannot end in '.' or '..'".into(),
+            })?
+        }
+
         flags.insert(OpenFlags::O_CREAT);
         let fd = syscalls::openat(dir, name, flags, perm.mode()).map_err(|err| {
             ErrorImpl::RawOsError {
